@@ -1,5 +1,6 @@
 import TxdbusModel.Proofs.Bus.Semantics
 import TxdbusModel.Proofs.Bus.Belief
+import TxdbusModel.Proofs.Bus.SpecExec
 import TxdbusModel.Bus.NamesPre
 /-!
 # Property C13 — built-in bus: a name has one live owner; ownership follows request flags
@@ -162,6 +163,13 @@ theorem run_refines_spec {ops : List Op} {s : State} {evss : List (List Event)}
   rw [abs_init] at this
   exact this
 
+/-- The executable instance of the specification that the driver runs against the harness's
+reference table (stream `spec-vs-reference`) only makes steps the specification allows. -/
+theorem spec_exec_sound {names : List Name} {fresh : Conn} {σ σ' : Spec.State} {op : Op}
+    {evs : List Spec.Ev} (hnd : names.Nodup) (hcover : ∀ n, σ.queue n ≠ [] → n ∈ names)
+    (h : Spec.exec names fresh σ op = some (σ', evs)) : Spec.Step σ op evs σ' :=
+  Spec.exec_sound hnd hcover h
+
 /-! ## 6. Tables from the source, client side -/
 
 /-- The constants of txdbus.client / bus.py / error.py are those of the DBus specification. -/
@@ -269,6 +277,7 @@ end Txdbus.Bus
 #print axioms Txdbus.Bus.queries_agree
 #print axioms Txdbus.Bus.refines_spec
 #print axioms Txdbus.Bus.run_refines_spec
+#print axioms Txdbus.Bus.spec_exec_sound
 #print axioms Txdbus.Bus.codes_match_spec
 #print axioms Txdbus.Bus.client_flags_roundtrip
 #print axioms Txdbus.Bus.client_success_iff_owner
